@@ -5,6 +5,10 @@ use std::collections::HashMap;
 
 #[allow(dead_code)]
 /// Compute use definition chains for the given function.
+///
+/// For every location, the definitions which reach that location (the
+/// reaching definitions of its predecessors) and write a scalar the location
+/// reads.
 pub fn use_def(
     function: &il::Function,
 ) -> Result<HashMap<il::ProgramLocation, LocationSet>, Error> {
@@ -13,59 +17,48 @@ pub fn use_def(
     let mut ud = HashMap::new();
 
     for location in rd.keys() {
-        let defs = match location.function_location().apply(function).unwrap() {
-            il::RefFunctionLocation::Instruction(_, instruction) => instruction
-                .operation()
-                .scalars_read()
-                .into_iter()
-                .fold(LocationSet::new(), |mut defs, scalar_read| {
-                    rd[location].locations().iter().for_each(|rd| {
-                        rd.function_location()
-                            .apply(function)
-                            .unwrap()
-                            .instruction()
-                            .unwrap()
-                            .operation()
-                            .scalars_written()
-                            .into_iter()
-                            .for_each(|scalar_written| {
-                                if scalar_written == scalar_read {
-                                    defs.insert(rd.clone());
-                                }
-                            })
-                    });
-                    defs
-                }),
+        let rfl = location.function_location().apply(function).unwrap();
+
+        let scalars_read: Vec<&il::Scalar> = match rfl {
+            il::RefFunctionLocation::Instruction(_, instruction) => {
+                instruction.operation().scalars_read().unwrap_or_default()
+            }
             il::RefFunctionLocation::Edge(edge) => edge
                 .condition()
-                .map(|condition| {
-                    condition.scalars().into_iter().fold(
-                        LocationSet::new(),
-                        |mut defs, scalar_read| {
-                            rd[location].locations().iter().for_each(|rd| {
-                                if let Some(scalars_written) = rd
-                                    .function_location()
-                                    .apply(function)
-                                    .unwrap()
-                                    .instruction()
-                                    .unwrap()
-                                    .operation()
-                                    .scalars_written()
-                                {
-                                    scalars_written.into_iter().for_each(|scalar_written| {
-                                        if scalar_written == scalar_read {
-                                            defs.insert(rd.clone());
-                                        }
-                                    })
-                                }
-                            });
-                            defs
-                        },
-                    )
-                })
-                .unwrap_or_else(LocationSet::new),
-            il::RefFunctionLocation::EmptyBlock(_) => LocationSet::new(),
+                .map(|condition| condition.scalars())
+                .unwrap_or_default(),
+            il::RefFunctionLocation::EmptyBlock(_) => Vec::new(),
         };
+
+        let mut defs = LocationSet::new();
+
+        // The definitions reaching this location are those which hold after
+        // each of its predecessors.
+        let rpl = il::RefProgramLocation::new(function, rfl);
+        for predecessor in rpl.backward()? {
+            let reaching = match rd.get(&predecessor.into()) {
+                Some(reaching) => reaching,
+                None => continue,
+            };
+            for definition in reaching.locations() {
+                let writes_scalar_read = definition
+                    .function_location()
+                    .apply(function)
+                    .unwrap()
+                    .instruction()
+                    .and_then(|instruction| instruction.operation().scalars_written())
+                    .map(|scalars_written| {
+                        scalars_written
+                            .iter()
+                            .any(|scalar_written| scalars_read.contains(scalar_written))
+                    })
+                    .unwrap_or(false);
+                if writes_scalar_read {
+                    defs.insert(definition.clone());
+                }
+            }
+        }
+
         ud.insert(location.clone(), defs);
     }
 
